@@ -27,7 +27,10 @@ def chunks(tier, seed):
     per = 10
     for k in range(0, n, per):
         out.append(('case_random', [dict(seed=seed * 100003 + k + i, steps=10 + (k + i) % 70,
-                                         names=hist.ALLNAMES[:3 + (k + i) % 2]) for i in range(per)]))
+                                         names=hist.ALLNAMES[:3 + (k + i) % 2],
+                                         # every fourth history goes through dd.autoref: the external references are then the
+                                         # live Function objects (anything else that holds a count shows up in the ledger)
+                                         mode='autoref' if (k + i) % 4 == 3 else 'bdd') for i in range(per)]))
     L = 3 if tier == 'quick' else 4
     alpha = ['build', 'ite', 'drop', 'gc', 'swap', 'gcroots', 'fork']
     seqs = [list(s) for s in itertools.product(alpha, repeat=L)]
@@ -37,6 +40,9 @@ def chunks(tier, seed):
 
 
 def case_random(c, res):
+    if c.get('mode') == 'autoref':
+        from vlib.rtc import c08
+        return hist.run_history(c, res, c08.OPS, c08.W)
     return hist.run_history(c, res, OPS, W)
 
 
